@@ -754,10 +754,24 @@ def record_hints(ast, sources=None):
     except Exception as exc:  # pylint: disable=broad-except
         return {'res': f'{stage}:{type(exc).__name__}', 'hints': [], 'err': f'{type(exc).__name__}: {exc}'[:200]}
     occ = occurrences(ast)
-    if len(occ) != len(calls) or any(g.canon(node) != g.canon(c['table']) for (_, node), c in zip(occ, calls)):
+    # line the calls up with the table occurrences (visit order).  An occurrence without a call of its own is served by
+    # the parser with the table code generated for an EARLIER occurrence of the same table: the hints that back-end code
+    # carries are what is effectively offered for it
+    aligned, k, last = [], 0, {}
+    for path, node in occ:
+        key = g.canon(node)
+        if k < len(calls) and g.canon(calls[k]['table']) == key:
+            call, k = calls[k], k + 1
+            last[key] = call
+        elif key in last:
+            call = last[key]
+        else:
+            return {'res': 'mismatch', 'hints': [], 'err': f'{len(calls)} generate_table calls for {len(occ)} occurrences'}
+        aligned.append((path, node, call))
+    if k != len(calls):
         return {'res': 'mismatch', 'hints': [], 'err': f'{len(calls)} generate_table calls for {len(occ)} occurrences'}
     hints = []
-    for (path, node), call in zip(occ, calls):
+    for path, node, call in aligned:
         hints.append({'path': path, 'table': node, 'cols': call['cols'], 'pred': call['pred'],
                       'target_cols': call['target_cols'], 'target_pred': call['target_pred']})
     return {'res': 'ok', 'hints': hints, 'err': None}
